@@ -2,6 +2,7 @@
 
 pub mod calprog;
 pub mod classical;
+pub mod defs;
 pub mod expr;
 pub mod ident;
 pub mod rf;
